@@ -104,7 +104,7 @@ theorem pppoe_parseTags_spec (fuel : Nat) (c : Cursor) (p : PPPoE) (hc : c.Inv) 
 
 /-- the object the 6 header bytes decode to -/
 def PPPoE.ofHeader (h : Bytes) : PPPoE :=
-  ⟨byteAt h 0 % 16, byteAt h 0 / 16, byteAt h 1, Cursor.beNat ((h.drop 2).take 2), Cursor.beNat (h.drop 4), [], 0⟩
+  ⟨byteAt h 0 / 16, byteAt h 0 % 16, byteAt h 1, Cursor.beNat ((h.drop 2).take 2), Cursor.beNat (h.drop 4), [], 0⟩
 
 theorem pppoe_ofHeader_inv (h : Bytes) (hl : h.length = 6) : (PPPoE.ofHeader h).Inv := by
   have h0 := byteAt_lt h 0
